@@ -832,7 +832,35 @@ def rule_fixed_size_library_args(ctx: Ctx, rep: Report) -> None:
     rep.floor(rule, 1)
 
 
+def rule_unproven_octets_screened(ctx: Ctx, rep: Report) -> None:
+    """C04.unproven_octets_screened: `_sec_from_pub_key` answers a key's SEC
+    octets *unproven*, for callers whose next step -- a bindings call -- parses
+    them anyway. That parse (ec_pubkey_parse) admits the hybrid 06/07 prefixes,
+    which the Python arm's `point_from_octets` refuses: the octets it hands on
+    from a byte spelling are screened for them first, or dsa.verify of a hybrid
+    key is True with the bindings and False without."""
+    from sa.ranges import refusal_constraints
+    rule = "C04.unproven_octets_screened"
+    fi = ctx.func("btclib.to_pub_key._sec_from_pub_key")
+    cs = refusal_constraints(ctx, fi)
+    hyb = frozenset({b"\x06", b"\x07"})
+    ok_set = frozenset({2, 3, 4})
+    screens = [c for c in cs if not c.from_fact and ((c.op == "in" and isinstance(c.value, frozenset) and c.value == hyb) or
+                                                     (c.op == "in" and isinstance(c.value, frozenset) and c.value == frozenset({6, 7})) or
+                                                     (c.op == "not in" and isinstance(c.value, frozenset) and (c.value <= ok_set or c.value <= frozenset({b"\x02", b"\x03", b"\x04"}))))]
+    rep.ob(rule, "_sec_from_pub_key:screen", bool(screens), fi.where(), f"the hybrid prefixes are refused: `{screens[0].show()}`" if screens else
+           f"no refusal of the 06/07 prefixes (refusals: {[c.show() for c in cs][:4]}): a hybrid key is a key on the bindings arm and not on the Python arm")
+    if screens and screens[0].test_id >= 0:
+        g = ctx.cfg(fi)
+        # every return of octets that came from a byte spelling passes the screen
+        for r in own_nodes(fi.node):
+            if isinstance(r, ast.Return) and r.value is not None and any(isinstance(x, ast.Call) and call_name(x) == "_pub_keyinfo_from_pub_key" for x in ast.walk(r.value)):
+                rep.ob(rule, "_sec_from_pub_key:unscreened_return", False, fi.where(r), f"`{norm(r)[:70]}` answers the unproven octets directly, past no screen")
+    rep.floor(rule, 1)
+
+
 RULES = [
+    ("C04.unproven_octets_screened", rule_unproven_octets_screened),
     ("C04.raw_key_admission", rule_raw_key_admission),
     ("C04.fixed_size_library_args", rule_fixed_size_library_args),
     ("C04.taproot_python_arm", rule_taproot_python_arm),
